@@ -93,11 +93,26 @@ def rand_instance(rng, N, K, PD, GN, GD, rmax):
     return m
 
 
+def reward_bound(m):
+    rabs = max([abs(x) for s in range(m["N"]) for a in range(m["K"]) if m["avail"][s][a] for x in m["R"][s][a]] + [1])
+    return rabs / (1 - m["GN"] / m["GD"])
+
+
+def statedep(m):
+    return any(0 in row for row in m["avail"])
+
+
 def magnitude_fine(m, lam, PRD, pmin):
-    """Every iterate's value stays below 250 in magnitude: (max|R| + lambda ln(1/pmin)) / (1 - gamma)."""
+    """Every iterate's value stays below 250 in magnitude: (max|R| + lambda ln(1/pmin)) / (1 - gamma).  With
+    state-dependent action sets the regular family additionally stays where the wrapper's emulation of a zero prior
+    (smallest positive float, logit -708) cannot compete: max|R| / (1 - gamma) < 600 lambda (the region beyond is
+    the business of CLAMP_CASES)."""
     rabs = max([abs(x) for s in m["R"] for a in s for x in a] + [1])
     lmax = max(F(n, d) for n, d in lam)
+    lmin = min(F(n, d) for n, d in lam)
     g = F(m["GN"], m["GD"])
+    if statedep(m) and not reward_bound(m) < 600 * float(lmin):
+        return False
     return (rabs + float(lmax) * math.log(PRD / pmin)) / (1 - float(g)) < 250 and rabs / (1 - float(g)) < 120
 
 
@@ -106,7 +121,7 @@ def make_case(rng, i, *, limit=None):
     while True:
         case = _make_case(rng, i, limit=limit)
         c = case["cfg"]
-        if magnitude_fine(case["m"], c["lam"], c["PRD"], min(min(r) for r in c["pn"])):
+        if magnitude_fine(case["m"], c["lam"], c["PRD"], min(x for r in c["pn"] for x in r if x > 0)):
             return case
 
 
@@ -131,6 +146,12 @@ def _make_case(rng, i, *, limit=None):
                     m["R"][s][a][s] = 0
             break
     N, K = m["N"], m["K"]
+    if iface == "class" and K >= 2 and rng.random() < 0.5:
+        # the planner wrapper on an MDP whose states offer different action sets (ghost dynamics on the others)
+        while not statedep(m):
+            m["avail"] = [[1 if rng.random() < 0.6 else 0 for _ in range(K)] for _ in range(N)]
+            if not all(any(r) for r in m["avail"]):
+                m["avail"] = [[1] * K for _ in range(N)]
     shape = "full" if (limit is not None or iface == "class") else rng.choice(["full", "full", "ns", "s", "sa", "a"])
     if limit is None:
         shape_rewards(rng, m, shape)
@@ -139,7 +160,11 @@ def _make_case(rng, i, *, limit=None):
                                                         else ["none", "none", "shared"])
     if K == 1 and pform != "none":
         pform = "shared"
-    if pform == "none":
+    if statedep(m):
+        pform = "none"           # the wrapper's own prior: uniform over the available actions of each state
+    if pform == "none" and statedep(m):
+        PRD, pn = 12, [[(12 // sum(row)) * x for x in row] for row in m["avail"]]
+    elif pform == "none":
         PRD, pn = K, [[1] * K for _ in range(N)]
     else:
         PRD = rng.choice([d for d in (4, 8, 10, 16) if d >= K])
@@ -148,7 +173,7 @@ def _make_case(rng, i, *, limit=None):
             pn = [list(row) for _ in range(N)]
         else:
             pn = [rand_comp(rng, PRD, K) for _ in range(N)]
-    pmin = min(min(r) for r in pn)
+    pmin = min(x for r in pn for x in r if x > 0)
     # entropy weight
     for _ in range(100):
         if limit is not None:
@@ -168,7 +193,7 @@ def _make_case(rng, i, *, limit=None):
     # initial policy
     iform = "none" if (iface == "class" or limit is not None or rng.random() < 0.8) else "given"
     if iform == "none":
-        IPD, ip = K, [[1] * K for _ in range(N)]
+        IPD, ip = PRD if statedep(m) else K, [list(r) for r in pn] if statedep(m) else [[1] * K for _ in range(N)]
     else:
         IPD = rng.choice([d for d in (4, 8, 10) if d >= K])
         ip = [rand_comp(rng, IPD, K) for _ in range(N)]
@@ -184,8 +209,27 @@ def _make_case(rng, i, *, limit=None):
     return {"m": m, "cfg": cfg}
 
 
+def clamp_case(N, K, avail, P, PD, R, GN, GD, lam):
+    m = {"N": N, "K": K, "PD": PD, "GN": GN, "GD": GD, "ID": 1, "abs": [0] * N, "avail": avail, "P": P, "R": R,
+         "p0": [1] + [0] * (N - 1)}
+    pn = [[(12 // sum(row)) * x for x in row] for row in avail]
+    cfg = {"iface": "class", "shape": "full", "pform": "none", "PRD": 12, "pn": pn, "wform": "float",
+           "lam": [list(lam)] * N, "iform": "none", "IPD": 12, "ip": [list(r) for r in pn], "force": True,
+           "dtype": "f64", "check": True, "budget": NMAIN, "rep": dict(REPS[0]), "limit": False}
+    return {"m": m, "cfg": cfg}
+
+
+# the wrapper on state-dependent action sets with action values below -700 lambda (small weight, negative rewards)
+CLAMP_CASES = [
+    clamp_case(2, 2, [[1, 0], [1, 1]], [[[1, 1], [2, 0]], [[2, 0], [0, 2]]], 2,
+               [[[-2, -2], [0, 0]], [[-2, -2], [-2, -2]]], 1, 2, (1, 1000)),
+    clamp_case(3, 2, [[1, 1], [0, 1], [1, 0]], [[[0, 2, 0], [0, 0, 2]], [[2, 0, 0], [1, 1, 0]], [[0, 1, 1], [2, 0, 0]]], 2,
+               [[[-1, -1, -1], [-3, -3, -3]], [[0, 0, 0], [-4, -4, -4]], [[-2, -2, -2], [0, 0, 0]]], 9, 10, (1, 100)),
+]
+
+
 def make_cases(rng, n, n_limit):
-    cases = [make_case(rng, i) for i in range(n)]
+    cases = [make_case(rng, i) for i in range(n)] + [dict(m=dict(c["m"]), cfg=dict(c["cfg"])) for c in CLAMP_CASES]
     # decreasing-weight families on oracle-sized instances with a uniform prior
     k = 0
     while k < n_limit:
@@ -352,7 +396,8 @@ def event(case, pi, qv):
     c = case["cfg"]
     N, K = case["m"]["N"], case["m"]["K"]
     e = {"pi": [[q20(pi[s][a]) for a in range(K)] for s in range(N)],
-         "L": [[log_ratio(pi[s][a], c["pn"][s][a] / c["PRD"]) for a in range(K)] for s in range(N)]}
+         "L": [[log_ratio(pi[s][a], c["pn"][s][a] / c["PRD"]) if c["pn"][s][a] > 0 else LZERO * U
+                for a in range(K)] for s in range(N)]}
     if qv is None:
         e.update(hq=0, q=[], v=[])
     else:
@@ -405,7 +450,8 @@ def record_trace(case, corrupt=None):
         evs.append(event(case, pi, qv))
     T = {k: m[k] for k in INST_KEYS}
     T.update(LN=[x[0] for x in c["lam"]], LD=[x[1] for x in c["lam"]], PRD=c["PRD"], pn=c["pn"],
-             IPD=c["IPD"], ip=c["ip"], unif=1 if all(x * K == c["PRD"] for r in c["pn"] for x in r) else 0,
+             IPD=c["IPD"], ip=c["ip"],
+             unif=1 if all(x * sum(m["avail"][s]) == c["PRD"] for s, r in enumerate(c["pn"]) for x in r if x > 0) else 0,
              f32=1 if c["dtype"] == "f32" else 0, ev=evs, conv=1 if conv else 0, its=cits - first,
              orc=1 if (oracle_sized(m) and c["dtype"] == "f64") else 0, tail=1 if first > 0 else 0)
     if first > 0:
@@ -430,24 +476,31 @@ def _muldivsat(x, n, d):
 def py_report(T):
     e = T["ev"][-1]
     N, K = T["N"], T["K"]
-    if any(abs(x) >= 2 ** 28 for x in e["v"]) or any(abs(x) >= 2 ** 28 for r in e["q"] for x in r):
+    if any(abs(x) >= 2 ** 28 for x in e["v"]):
         return {"mag": 0}
     lam = [(T["LN"][s], T["LD"][s]) for s in range(N)]
-    look = [[e["q"][s][a] - ((U * sum(T["P"][s][a][t] * T["R"][s][a][t] for t in range(N))) // T["PD"]
+    av = T["avail"]
+    if any(abs(e["q"][s][a]) >= 2 ** 28 for s in range(N) for a in range(K) if av[s][a]):
+        return {"mag": 0}
+    look = [[0 if not av[s][a] else
+             e["q"][s][a] - ((U * sum(T["P"][s][a][t] * T["R"][s][a][t] for t in range(N))) // T["PD"]
                               + sum((e["v"][t] * T["P"][s][a][t] * T["GN"]) // (T["PD"] * T["GD"]) for t in range(N)))
              for a in range(K)] for s in range(N)]
-    d = [[_muldivsat(e["L"][s][a], *lam[s]) - (e["q"][s][a] - e["v"][s]) for a in range(K)] for s in range(N)]
+    d = [[0 if not av[s][a] else _muldivsat(e["L"][s][a], *lam[s]) - (e["q"][s][a] - e["v"][s])
+          for a in range(K)] for s in range(N)]
     delta = [1 + sum((((abs(d[s][a]) // 32768) + 1) * (12 + ((e["pi"][s][a] + 1) * 11) // 1024)) // 32768 + 1
-                     for a in range(K)) for s in range(N)]
+                     for a in range(K) if av[s][a]) for s in range(N)]
     ev = []
     for s in range(N):
-        a1 = sum(0 if e["pi"][s][a] == 0 else (e["pi"][s][a] * (e["q"][s][a] - e["v"][s])) >> 20 for a in range(K))
-        a2 = sum(0 if e["pi"][s][a] == 0 else (e["pi"][s][a] * e["L"][s][a]) >> 20 for a in range(K))
+        live = [a for a in range(K) if av[s][a] and 0 < e["pi"][s][a] <= U]
+        a1 = sum((e["pi"][s][a] * (e["q"][s][a] - e["v"][s])) >> 20 for a in live)
+        a2 = sum((e["pi"][s][a] * e["L"][s][a]) >> 20 for a in live)
         ev.append(a1 - _muldivsat(a2, *lam[s]))
     out = {"mag": 1, "look": look, "d": d, "delta": delta, "evalres": ev}
     if T["orc"] == 1 and T["unif"] == 1:
         vs = pyoracle.optimal_value(T)
-        out["qstar"] = [[math.floor(pyoracle.q_from_v(T, vs, s, a) * U) for a in range(K)] for s in range(N)]
+        out["qstar"] = [[math.floor(pyoracle.q_from_v(T, vs, s, a) * U) if av[s][a] else 0 for a in range(K)]
+                        for s in range(N)]
         s = max(range(N), key=lambda x: F(*lam[x]))
         t1 = (U * LOG_UB[K - 1]) // 10000 + 1
         out["limitb"] = (t1 * lam[s][0] * T["GN"]) // (lam[s][1] * (T["GD"] - T["GN"])) + 1
@@ -474,6 +527,9 @@ DRIFT_FLAGS = {"initial-policy-differs-from-configured", "iterate-policy-not-nor
 
 def shape_of(c):
     return f"weight={c['wform']},prior={c['pform']},dtype={c['dtype']}"
+
+
+CLAMP_SIG = "C19:EntropyRegularizedPolicyIteration.plan_on:unavailable-action-competes-through-clamped-zero-prior"
 
 
 def full_shape(c):
@@ -543,6 +599,11 @@ def judge_cases(ctx, cases, *, corrupt=None, drop_event=None, label="trace", cov
         unknown = flags - DRIFT_FLAGS
         if unknown:
             raise TLCFailure(f"unknown flags {unknown}")
+        if r.get("clamp"):
+            # the intermediate iterates of such a run show the same defect (mass on the unavailable action): it is
+            # reported once, under the defect's signature, from the returned iterate
+            ctx.count("iterate_flags_inside_clamp_region_runs", len(flags))
+            flags = set()
         for f in sorted(flags) + info["notes"]:
             ctx.drift(f, {"case": digest(case), "site": site, "shape": shape_of(c)})
         if r["phase"] == "capped":
@@ -567,6 +628,16 @@ def judge_cases(ctx, cases, *, corrupt=None, drop_event=None, label="trace", cov
             if key in seen:
                 continue
             seen.add(key)
+            if r.get("clamp"):
+                # signature predicate computed by the spec (ClampStates): a state with state-dependent actions whose
+                # available action values are all below -690 lambda
+                report(ctx, CLAMP_SIG,
+                       f"{site} on an MDP with state-dependent action sets: with action values below -700 * entropy "
+                       f"weight the unavailable action (prior clamped to the smallest float instead of 0) takes "
+                       f"probability mass and the values are not the soft fixed point over the available actions "
+                       f"({f['c']} at state {f['s'] - 1} action {f['a'] - 1}; states {sorted(x - 1 for x in r['clamp'])})",
+                       {"case": case, "clause": f["c"], "fail": f})
+                break
             report(ctx, f"C19:{site}:{f['c']}/{shape_of(c)}",
                    f"{site} reported convergence but {f['c']} at state {f['s'] - 1} action {f['a'] - 1} "
                    f"(residual {f['got']} units of 2^-20, tolerance {f['tol']}; {full_shape(c)})",
@@ -577,12 +648,14 @@ def judge_cases(ctx, cases, *, corrupt=None, drop_event=None, label="trace", cov
         e = T["ev"][-1]
         rep = r["rep"]
         if rep.get("mag") == 1 and c["dtype"] == "f64":
-            judged = [(s, a) for s in range(T["N"]) for a in range(T["K"]) if e["pi"][s][a] >= 2]
+            judged = [(s, a) for s in range(T["N"]) for a in range(T["K"]) if e["pi"][s][a] >= 2 and T["avail"][s][a]]
+            if statedep(T):
+                ctx.count("converged_with_state_dependent_action_sets")
             spread = any(len({e["q"][s][a] // 1024 for (s2, a) in judged if s2 == s}) >= 2 for s in range(T["N"]))
             if T["K"] >= 2 and spread:
                 ctx.nontrivial(digest(case))
             ctx.count("entries_judged_two_sided", len(judged))
-            ctx.count("entries_judged_one_sided", T["N"] * T["K"] - len(judged))
+            ctx.count("entries_judged_one_sided", sum(map(sum, T["avail"])) - len(judged))
             if c["limit"] and rep.get("qstar"):
                 dist = max(abs(rep["qstar"][s][a] - e["q"][s][a]) for s in range(T["N"]) for a in range(T["K"]))
                 lst = ctx.extra.setdefault("limit_distances_units", [])
@@ -610,7 +683,11 @@ def run_mc(ctx, cases, budget, coverage=False, label="mc"):
         seen.add(digest(m))
         T = {k: m[k] for k in INST_KEYS}
         K, N = m["K"], m["N"]
-        T.update(LN=[1] * N, LD=[1] * N, PRD=K, pn=[[1] * K for _ in range(N)], unif=1, tail=0)
+        if statedep(m):
+            T.update(PRD=12, pn=[[(12 // sum(row)) * x for x in row] for row in m["avail"]])
+        else:
+            T.update(PRD=K, pn=[[1] * K for _ in range(N)])
+        T.update(LN=[1] * N, LD=[1] * N, unif=1, tail=0)
         batch.append(T)
     if not batch:
         return
